@@ -17,9 +17,10 @@ import (
 // is executed and no solver is involved: conditions are decided by substitution only.
 
 type AV struct {
-	C   constant.Value
-	Nil bool
-	T   *Term
+	C      constant.Value
+	Nil    bool
+	NonNil bool // known not to be nil (a value boxed into an interface, an address, a fresh allocation)
+	T      *Term
 }
 
 func (a AV) Known() bool { return a.C != nil || a.Nil }
@@ -46,6 +47,7 @@ type Path struct {
 	// PhiIn: for a path that stops at a block (loop header), the value each phi of that block
 	// receives from this path: the loop's per-iteration transfer function.
 	PhiIn map[*ssa.Phi]AV
+	final *wstate // state at the exit (used when the path belongs to an inlined callee)
 }
 
 // Assumed returns the assumed truth of a condition key (normalised) and whether it was assumed.
@@ -91,6 +93,8 @@ type WalkCfg struct {
 	Pre Asg
 	// NoEffects: do not record call effects (saves memory on big functions)
 	NoEffects bool
+	// NoInline: keep every call opaque (the error-flow engine reasons per call site)
+	NoInline bool
 }
 
 type wstate struct {
@@ -103,6 +107,7 @@ type wstate struct {
 	visits  map[int]int
 	blocks  []int
 	rng     map[string][2]int64
+	tuples  map[ssa.Value][]AV // results of inlined multi-result calls
 }
 
 func (s *wstate) clone() *wstate {
@@ -127,6 +132,12 @@ func (s *wstate) clone() *wstate {
 	for k, v := range s.rng {
 		n.rng[k] = v
 	}
+	if len(s.tuples) > 0 {
+		n.tuples = make(map[ssa.Value][]AV, len(s.tuples))
+		for k, v := range s.tuples {
+			n.tuples[k] = v
+		}
+	}
 	n.order = append([]string(nil), s.order...)
 	n.effects = append([]Effect(nil), s.effects...)
 	n.blocks = append([]int(nil), s.blocks...)
@@ -134,13 +145,14 @@ func (s *wstate) clone() *wstate {
 }
 
 type walker struct {
-	fn    *ssa.Function
-	cfg   WalkCfg
-	tb    *TB
-	paths []*Path
-	over  bool
-	local map[*ssa.Alloc]bool
+	fn      *ssa.Function
+	cfg     WalkCfg
+	tb      *TB
+	paths   []*Path
+	over    bool
+	local   map[*ssa.Alloc]bool
 	keyTerm map[string]*Term
+	stack   []*ssa.Function // functions being inlined (outermost first)
 }
 
 // WalkFunc enumerates the abstract paths of fn from its entry.
@@ -264,7 +276,7 @@ func (w *walker) emit(s *wstate, exit string, in ssa.Instruction, ret []AV, stop
 		w.over = true
 		return
 	}
-	w.paths = append(w.paths, &Path{Asg: s.asg, Order: s.order, Effects: s.effects, Exit: exit, Ret: ret, ExitInstr: in, StopBlock: stop, Blocks: s.blocks, KeyTerm: w.keyTerm})
+	w.paths = append(w.paths, &Path{Asg: s.asg, Order: s.order, Effects: s.effects, Exit: exit, Ret: ret, ExitInstr: in, StopBlock: stop, Blocks: s.blocks, KeyTerm: w.keyTerm, final: s})
 }
 
 func (w *walker) val(s *wstate, v ssa.Value) AV {
@@ -298,68 +310,83 @@ func (w *walker) refine(s *wstate, a AV) AV {
 }
 
 func (w *walker) block(s *wstate, b, prev *ssa.BasicBlock, depth int) {
+	w.blockFrom(s, b, prev, depth, 0)
+}
+
+// blockFrom continues the walk at instruction index `from` of block b (from > 0: the block was entered
+// earlier on this path and an inlined call has just returned).
+func (w *walker) blockFrom(s *wstate, b, prev *ssa.BasicBlock, depth int, from int) {
 	for {
 		if w.over {
 			return
 		}
-		if w.cfg.StopAt != nil && prev != nil && w.cfg.StopAt(b) {
-			w.emit(s, "stop", nil, nil, b)
-			if n := len(w.paths); n > 0 && w.paths[n-1].Exit == "stop" {
-				pin := map[*ssa.Phi]AV{}
+		if from == 0 {
+			if w.cfg.StopAt != nil && prev != nil && w.cfg.StopAt(b) {
+				w.emit(s, "stop", nil, nil, b)
+				if n := len(w.paths); n > 0 && w.paths[n-1].Exit == "stop" {
+					pin := map[*ssa.Phi]AV{}
+					idx := -1
+					for i, p := range b.Preds {
+						if p == prev {
+							idx = i
+						}
+					}
+					for _, in := range b.Instrs {
+						ph, ok := in.(*ssa.Phi)
+						if !ok {
+							break
+						}
+						if idx >= 0 {
+							pin[ph] = w.val(s, ph.Edges[idx])
+						}
+					}
+					w.paths[n-1].PhiIn = pin
+				}
+				return
+			}
+			s.visits[b.Index]++
+			if s.visits[b.Index] > w.cfg.MaxVisits {
+				w.emit(s, "cut", nil, nil, b)
+				return
+			}
+			s.blocks = append(s.blocks, b.Index)
+			// phis first, evaluated simultaneously
+			phiVals := map[*ssa.Phi]AV{}
+			for _, in := range b.Instrs {
+				ph, ok := in.(*ssa.Phi)
+				if !ok {
+					break
+				}
+				if prev == nil {
+					phiVals[ph] = AV{T: w.tb.Of(ph)}
+					continue
+				}
 				idx := -1
 				for i, p := range b.Preds {
 					if p == prev {
 						idx = i
-					}
-				}
-				for _, in := range b.Instrs {
-					ph, ok := in.(*ssa.Phi)
-					if !ok {
 						break
 					}
-					if idx >= 0 {
-						pin[ph] = w.val(s, ph.Edges[idx])
-					}
 				}
-				w.paths[n-1].PhiIn = pin
-			}
-			return
-		}
-		s.visits[b.Index]++
-		if s.visits[b.Index] > w.cfg.MaxVisits {
-			w.emit(s, "cut", nil, nil, b)
-			return
-		}
-		s.blocks = append(s.blocks, b.Index)
-		// phis first, evaluated simultaneously
-		phiVals := map[*ssa.Phi]AV{}
-		for _, in := range b.Instrs {
-			ph, ok := in.(*ssa.Phi)
-			if !ok {
-				break
-			}
-			if prev == nil {
-				phiVals[ph] = AV{T: w.tb.Of(ph)}
-				continue
-			}
-			idx := -1
-			for i, p := range b.Preds {
-				if p == prev {
-					idx = i
-					break
+				if idx < 0 {
+					phiVals[ph] = AV{T: w.tb.Of(ph)}
+				} else {
+					phiVals[ph] = w.val(s, ph.Edges[idx])
 				}
 			}
-			if idx < 0 {
-				phiVals[ph] = AV{T: w.tb.Of(ph)}
-			} else {
-				phiVals[ph] = w.val(s, ph.Edges[idx])
+			for ph, av := range phiVals {
+				s.env[ph] = av
 			}
-		}
-		for ph, av := range phiVals {
-			s.env[ph] = av
 		}
 		var next *ssa.BasicBlock
-		for _, in := range b.Instrs {
+		for idx, in := range b.Instrs {
+			if idx < from {
+				continue
+			}
+			if call, isCall := in.(*ssa.Call); isCall && w.shouldInline(call) {
+				w.inlineCall(s, b, prev, depth, idx, call)
+				return
+			}
 			switch in := in.(type) {
 			case *ssa.Phi:
 				continue
@@ -388,6 +415,131 @@ func (w *walker) block(s *wstate, b, prev *ssa.BasicBlock, depth int) {
 			return
 		}
 		prev, b = b, next
+		from = 0
+	}
+}
+
+// shouldInline: a static call of a module function that the rule tables do not know (a helper extracted by
+// a refactoring, say) is analysed by inlining, so that the rules see through it; known functions stay
+// opaque anchors. Bounded: no recursion, nesting depth 3.
+func (w *walker) shouldInline(call *ssa.Call) bool {
+	cal := call.Common().StaticCallee()
+	if w.cfg.NoInline || cal == nil || len(cal.Blocks) == 0 || len(w.stack) >= 3 || cal == w.fn {
+		return false
+	}
+	if cal.Pkg == nil && cal.Origin() == nil {
+		return false
+	}
+	if !strings.HasPrefix(funcPkgPath(cal), modPath) {
+		return false
+	}
+	if cal.Parent() != nil {
+		return false // closures called directly: left opaque
+	}
+	for _, f := range w.stack {
+		if f == cal {
+			return false
+		}
+	}
+	if calleesInclude(cal, cal, 0) {
+		return false // directly or mutually recursive helper
+	}
+	return !knownFuncs[knownKey(cal)]
+}
+
+func knownKey(f *ssa.Function) string {
+	if o := f.Origin(); o != nil {
+		f = o
+	}
+	return funcName(f)
+}
+
+// calleesInclude: target is reachable from f through static calls (depth-bounded).
+func calleesInclude(f, target *ssa.Function, d int) bool {
+	if d > 4 {
+		return false
+	}
+	found := false
+	allInstrs(f, func(_ *ssa.BasicBlock, in ssa.Instruction) {
+		if found {
+			return
+		}
+		if ci, ok := in.(ssa.CallInstruction); ok {
+			if c := ci.Common().StaticCallee(); c != nil {
+				if c == target {
+					found = true
+				} else if c != f && len(c.Blocks) > 0 && strings.HasPrefix(funcPkgPath(c), modPath) && !knownFuncs[knownKey(c)] && calleesInclude(c, target, d+1) {
+					found = true
+				}
+			}
+		}
+	})
+	return found
+}
+
+// inlineCall walks the callee with its parameters bound to the caller's argument values and, for every
+// path of the callee, continues the caller after the call.
+func (w *walker) inlineCall(s *wstate, b, prev *ssa.BasicBlock, depth, idx int, call *ssa.Call) {
+	cal := call.Common().StaticCallee()
+	sw := &walker{fn: cal, cfg: w.cfg, tb: NewTB(), local: map[*ssa.Alloc]bool{}, keyTerm: w.keyTerm, stack: append(append([]*ssa.Function(nil), w.stack...), w.fn)}
+	sw.cfg.StopAt = nil
+	sw.cfg.MaxPaths = w.cfg.MaxPaths
+	for _, blk := range cal.Blocks {
+		for _, in := range blk.Instrs {
+			if a, ok := in.(*ssa.Alloc); ok && isLocalCell(a) {
+				sw.local[a] = true
+			}
+		}
+	}
+	cs := s.clone()
+	cs.visits = map[int]int{}
+	cs.blocks = nil
+	for i, p := range cal.Params {
+		if i < len(call.Common().Args) {
+			cs.env[p] = w.val(s, call.Common().Args[i])
+		}
+	}
+	sw.block(cs, cal.Blocks[0], nil, 0)
+	if sw.over {
+		w.over = true
+		return
+	}
+	for _, p := range sw.paths {
+		fs := p.final
+		if fs == nil {
+			continue
+		}
+		n := fs.clone()
+		// the caller's own bookkeeping
+		n.visits = make(map[int]int, len(s.visits))
+		for k, v := range s.visits {
+			n.visits[k] = v
+		}
+		n.blocks = append([]int(nil), s.blocks...)
+		// the callee may have written anything reachable
+		for k := range n.heap {
+			delete(n.heap, k)
+		}
+		switch p.Exit {
+		case "return":
+			if len(p.Ret) == 1 {
+				n.env[call] = p.Ret[0]
+			} else if len(p.Ret) > 1 {
+				if n.tuples == nil {
+					n.tuples = map[ssa.Value][]AV{}
+				}
+				n.tuples[call] = p.Ret
+				n.env[call] = AV{T: &Term{Op: "tuple", Name: funcName(cal), V: call, Typ: call.Type()}}
+			}
+			w.blockFrom(n, b, prev, depth, idx+1)
+		case "panic":
+			w.emit(n, "panic", p.ExitInstr, nil, nil)
+		default:
+			w.emit(n, "cut", nil, nil, b)
+		}
+		if w.over {
+			return
+		}
 	}
 }
 
@@ -697,6 +849,10 @@ func (w *walker) instr(s *wstate, b *ssa.BasicBlock, in ssa.Instruction) {
 			s.env[in] = AV{C: constant.MakeBool(in.Op == token.EQL), T: t}
 			return
 		}
+		if (in.Op == token.EQL || in.Op == token.NEQ) && (x.Nil && y.NonNil || x.NonNil && y.Nil) {
+			s.env[in] = AV{C: constant.MakeBool(in.Op == token.NEQ), T: t}
+			return
+		}
 		s.env[in] = w.refine(s, AV{T: t})
 	case *ssa.Call:
 		name := calleeName(in.Common())
@@ -754,12 +910,16 @@ func (w *walker) instr(s *wstate, b *ssa.BasicBlock, in ssa.Instruction) {
 	case *ssa.Send:
 		s.effects = append(s.effects, Effect{Kind: "send", Instr: in, Args: []*Term{tv(in.Chan), tv(in.X)}, Block: b.Index})
 	case *ssa.Extract:
+		if comps, ok := s.tuples[in.Tuple]; ok && in.Index < len(comps) {
+			s.env[in] = comps[in.Index]
+			return
+		}
 		tu := w.val(s, in.Tuple)
 		t := &Term{Op: "ext", Name: fmt.Sprint(in.Index), Args: []*Term{tu.T}, V: in, Typ: in.Type()}
 		s.env[in] = w.refine(s, AV{T: t})
 	case *ssa.MakeInterface:
 		x := w.val(s, in.X)
-		s.env[in] = AV{C: x.C, T: x.T} // boxing is transparent; a boxed value is never nil
+		s.env[in] = AV{C: x.C, T: x.T, NonNil: true} // boxing is transparent; a boxed value is never nil
 	case *ssa.ChangeInterface:
 		s.env[in] = w.val(s, in.X)
 	case *ssa.ChangeType:
